@@ -53,6 +53,8 @@ type pool struct {
 	huge   []float64      // optional: a slice beyond any plausible 'switch algorithm for large n' threshold (nil in most runs)
 	big    graph.IntGraph // optional: a graph whose node ids cross the mark set's growth boundary (nil in most runs)
 	invT   func(float64) float64
+	crashD *crashDist
+	invS   func(float64) float64
 	track  []tracked
 	knobEL int
 	knobTL int
@@ -394,6 +396,8 @@ func buildPool(g simkit.G) *pool {
 	p.dom = graphalg.Dom(p.idom)
 	p.simpl = graphalg.SimplifyMulti(p.igraphs[0])
 	p.invT = stats.InvCDF(stats.TDist{V: float64(g.Range(2, 9))})
+	p.crashD = &crashDist{simDist: simDist{lo: -3, hi: 6, knee: 1.5}}
+	p.invS = stats.InvCDF(p.crashD)
 	return p
 }
 
